@@ -36,6 +36,7 @@ const FOREIGN_PREFIX: [u8; 12] = [0x77; 12];
 #[kani::proof]
 #[kani::unwind(5)]
 fn c03_kernel_acked_by_all_reliable() {
+    s1::link_drop_glue();
     let wguid = s1::writer_guid(0, 0);
     let mut w = RtpsStatefulWriter::new(wguid, 1344);
     let n: usize = kani::any();
@@ -143,6 +144,7 @@ fn waiter_state(rx: &mut OneshotReceiver<DdsResult<()>>) -> u8 {
 #[kani::stub(critical_section::acquire, super::support_cs::cs_acquire)]
 #[kani::stub(critical_section::release, super::support_cs::cs_release)]
 fn c03_wait_registration() {
+    s1::link_drop_glue();
     let cap = sp::Capture::new();
     let mut p = sp::participant(&cap, 0);
     let last: i64 = kani::any();
@@ -226,6 +228,7 @@ fn departure(by_reader: bool, pending: bool) {
 #[kani::stub(critical_section::acquire, super::support_cs::cs_acquire)]
 #[kani::stub(critical_section::release, super::support_cs::cs_release)]
 fn c03_departure_participant_pending__known() {
+    s1::link_drop_glue();
     departure(false, true);
 }
 
@@ -240,6 +243,7 @@ fn c03_departure_participant_pending__known() {
 #[kani::stub(critical_section::acquire, super::support_cs::cs_acquire)]
 #[kani::stub(critical_section::release, super::support_cs::cs_release)]
 fn c03_departure_reader_disposed__known() {
+    s1::link_drop_glue();
     departure(true, kani::any());
 }
 
@@ -254,5 +258,6 @@ fn c03_departure_reader_disposed__known() {
 #[kani::stub(critical_section::acquire, super::support_cs::cs_acquire)]
 #[kani::stub(critical_section::release, super::support_cs::cs_release)]
 fn c03_departure__rest() {
+    s1::link_drop_glue();
     departure(false, false);
 }
